@@ -52,10 +52,16 @@ class Ob:
           parts.append(z3.BoolVal(True))
       else:
         parts.append(z3.Not(g))
-    s = z3.Solver()
-    for a in parts:
-      s.add(a if not isinstance(a, bool) else z3.BoolVal(a))
-    self.smt2 = s.to_smt2()
+    # serialise without going through Solver.add (which internalises the formula and can take minutes on very large terms)
+    fs = [a if not isinstance(a, bool) else z3.BoolVal(a) for a in parts]
+    if not fs:
+      fs = [z3.BoolVal(True)]
+    ctx = fs[0].ctx
+    n = len(fs) - 1
+    arr = (z3.Ast * n)()
+    for i in range(n):
+      arr[i] = fs[i].as_ast()
+    self.smt2 = z3.Z3_benchmark_to_smtlib_string(ctx.ref(), 'obligation', '', 'unknown', '', n, arr, fs[-1].as_ast())
     return self.smt2
 
   def ok(self):
